@@ -143,6 +143,10 @@ func runProperty(res *Result, prop, tier string, seed uint64, driver, replay str
 		runC16(res)
 		return
 	}
+	if prop == "C05" {
+		runC05(res, tier, seed, driver)
+		return
+	}
 	switch prop {
 	case "C01", "C02", "C08", "C10":
 		cases = append(cases, pairCases(g)...)
